@@ -7,7 +7,7 @@ observer (vf.vfs) and the thread scheduler (vf.sched):
  2. crash points: every crash state of every cache-writing step -> recovery by a fresh client must succeed;
  3. schedules: 2 (thorough: 3) concurrent request_profile calls on one client, all interleavings of their file/HTTP
     points within the preemption bound -> cache whole, later request succeeds;
- 4. two servers: pairs of clients with equal/different ORG/FID/URL, both orders.
+ 4. two servers: pairs of clients (or one re-pointed client) with equal/different ORG/FID/URL, both orders.
 """
 import datetime
 import os
@@ -473,48 +473,62 @@ def part_two_servers(args):
     try:
         for name, a, b in PAIRS:
             for order in ((0, 1), (1, 0)):
-                t.count("evaluations")
-                t.count("server-pairs")
-                wipe_cache()
-                cfgs = [dict(org=a[0], fid=a[1], url="http://ofx.first.example/ofx"), dict(org=b[0], fid=b[1], url="http://ofx.second.example/ofx")]
-                seen = {}
-                vers = {"http://ofx.first.example/ofx": 5, "http://ofx.second.example/ofx": 2}
+                for how in ("client-per-server", "one-client-re-pointed"):
+                    t.count("evaluations")
+                    t.count("server-pairs")
+                    wipe_cache()
+                    cfgs = [dict(org=a[0], fid=a[1], url="http://ofx.first.example/ofx"), dict(org=b[0], fid=b[1], url="http://ofx.second.example/ofx")]
+                    seen = {}
+                    vers = {"http://ofx.first.example/ofx": 5, "http://ofx.second.example/ofx": 2}
 
-                def handler(ex):
-                    rq = F.read_request(ex.body)
-                    seen.setdefault(ex.url, []).append(rq["dtprofup_ms"])
-                    v = vers[ex.url]
-                    if rq["dtprofup_ms"] >= vms(v):
-                        return F.ok(F.profile_response(rq["trnuids"][0], None, {}, status=1))
-                    body = F.profile_response(rq["trnuids"][0], vdate(v), {"bank": ex.url}, padding=v % 4)
-                    seen.setdefault("body:" + ex.url, []).append(body)
-                    return F.ok(body)
+                    def handler(ex):
+                        rq = F.read_request(ex.body)
+                        seen.setdefault(ex.url, []).append(rq["dtprofup_ms"])
+                        v = vers[ex.url]
+                        if rq["dtprofup_ms"] >= vms(v):
+                            return F.ok(F.profile_response(rq["trnuids"][0], None, {}, status=1))
+                        body = F.profile_response(rq["trnuids"][0], vdate(v), {"bank": ex.url}, padding=v % 4)
+                        seen.setdefault("body:" + ex.url, []).append(body)
+                        return F.ok(body)
 
-                net.handler = handler
-                case = {"part": "two-servers", "pair": name, "order": list(order)}
-                sig = f"C15|two-servers|{name}"
-                bad = False
-                for idx in order:
-                    c = cfgs[idx]
-                    try:
-                        with warnings.catch_warnings():
-                            warnings.simplefilter("ignore")
-                            data = mk_client(org=c["org"], fid=c["fid"], url=c["url"]).request_profile().read()
-                    except Exception as e:
-                        t.fail(f"{sig}|request-raises-{type(e).__name__}", case, f"server {c['url']}: {type(e).__name__}: {str(e)[:120]}")
-                        bad = True
-                        break
-                    asked = seen[c["url"]][-1]
-                    if asked != EPOCH1990:
-                        t.fail(f"{sig}|asked-with-other-servers-date", case, f"{c['url']} was asked with DTPROFUP {asked}, nothing from it is cached")
-                        bad = True
-                        break
-                    if data not in seen.get("body:" + c["url"], []):
-                        t.fail(f"{sig}|returned-other-servers-profile", case, c["url"])
-                        bad = True
-                        break
-                if not bad:
-                    t.outcome("two-servers-ok")
+                    net.handler = handler
+                    case = {"part": "two-servers", "pair": name, "order": list(order), "how": how}
+                    sig = f"C15|two-servers|{name}"
+                    bad = False
+                    shared = None
+                    for idx in order:
+                        c = cfgs[idx]
+                        try:
+                            with warnings.catch_warnings():
+                                warnings.simplefilter("ignore")
+                                if how == "client-per-server":
+                                    cl = mk_client(org=c["org"], fid=c["fid"], url=c["url"])
+                                elif shared is None:
+                                    cl = shared = mk_client(org=c["org"], fid=c["fid"], url=c["url"])
+                                else:
+                                    # one client object used for a list of institutions: url / org / fid are plain attributes
+                                    cl = shared
+                                    cl.url, cl.org, cl.fid = c["url"], c["org"], c["fid"]
+                                data = cl.request_profile().read()
+                        except Exception as e:
+                            t.fail(f"{sig}|request-raises-{type(e).__name__}", case, f"server {c['url']}: {type(e).__name__}: {str(e)[:120]}")
+                            bad = True
+                            break
+                        if not seen.get(c["url"]):
+                            t.fail(f"{sig}|request-not-sent-to-the-configured-server", case, f"{c['url']}: requests went to {sorted(k for k in seen if not k.startswith('body:'))}")
+                            bad = True
+                            break
+                        asked = seen[c["url"]][-1]
+                        if asked != EPOCH1990:
+                            t.fail(f"{sig}|asked-with-other-servers-date", case, f"{c['url']} was asked with DTPROFUP {asked}, nothing from it is cached")
+                            bad = True
+                            break
+                        if data not in seen.get("body:" + c["url"], []):
+                            t.fail(f"{sig}|returned-other-servers-profile", case, c["url"])
+                            bad = True
+                            break
+                    if not bad:
+                        t.outcome("two-servers-ok")
     finally:
         net.uninstall()
     return t
@@ -562,7 +576,7 @@ def run(ctx):
         f"(every prefix of the file-operation log x torn prefixes of pending writes, {'coarse' if ctx.quick else 'every byte'}) -> recovery by a fresh client; (3) 2 concurrent "
         f"request_profile calls on one client (no cache / an older cache / an older cache with one caller told 'up to date' and the other sent a newer profile), {'preemption bound 2' if ctx.quick else 'all interleavings'} "
         "of their file and HTTP points, and one preemption at the first visit of every line of ofxtools/Client.py; every execution runs in its own forked process"
-        + ("; 3 calls with bound 2" if ctx.thorough else "") + "; (4) 6 client pairs x both orders against two servers",
+        + ("; 3 calls with bound 2" if ctx.thorough else "") + "; (4) 6 ORG/FID pairs x both orders x {a client per server, one client object re-pointed by assigning url/org/fid} against two servers",
         "exhaustive": True,
     }
     return {"tally": tally, "coverage": cov, "assumptions": [
